@@ -48,25 +48,43 @@ func NewGuardianSets(
 }
 
 func (gs *GuardianSets) GetGuardianSet(ctx context.Context, index int) (*common.GuardianSet, error) {
-	if index <= gs.currentGuardianSetIndex {
-		return gs.guardianSetLists[index], nil
+	if guardianSet := gs.getKnownGuardianSet(index); guardianSet != nil {
+		return guardianSet, nil
 	}
 
 	// Perhaps the guardian set has been updated and we need to query from the chain
-	guardianSets, err := gs.getGuardianSetsRange(ctx, uint32(gs.currentGuardianSetIndex+1), uint32(index))
+	guardianSets, err := gs.getGuardianSetsRange(ctx, uint32(gs.getCurrentGuardianSetIndex()+1), uint32(index))
 	if err != nil {
 		return nil, err
 	}
 	gs.updateGuardianSets(guardianSets)
 	gs.guardianSetC <- gs.GetCurrentGuardianSet()
 
-	if index > gs.currentGuardianSetIndex {
-		return nil, fmt.Errorf("invalid guardian index %v, current guardian set index: %v", index, gs.currentGuardianSetIndex)
+	if guardianSet := gs.getKnownGuardianSet(index); guardianSet != nil {
+		return guardianSet, nil
 	}
-	return gs.guardianSetLists[index], nil
+	return nil, fmt.Errorf("invalid guardian index %v, current guardian set index: %v", index, gs.getCurrentGuardianSetIndex())
+}
+
+// getKnownGuardianSet returns the guardian set with the given index, or nil if it is not known (yet).
+func (gs *GuardianSets) getKnownGuardianSet(index int) *common.GuardianSet {
+	gs.lock.Lock()
+	defer gs.lock.Unlock()
+	if index < 0 || index > gs.currentGuardianSetIndex || index >= len(gs.guardianSetLists) {
+		return nil
+	}
+	return gs.guardianSetLists[index]
+}
+
+func (gs *GuardianSets) getCurrentGuardianSetIndex() int {
+	gs.lock.Lock()
+	defer gs.lock.Unlock()
+	return gs.currentGuardianSetIndex
 }
 
 func (gs *GuardianSets) GetCurrentGuardianSet() *common.GuardianSet {
+	gs.lock.Lock()
+	defer gs.lock.Unlock()
 	return gs.guardianSetLists[gs.currentGuardianSetIndex]
 }
 
@@ -80,7 +98,7 @@ func (gs *GuardianSets) updateGuardianSet(ctx context.Context) {
 	for {
 		select {
 		case <-tick.C:
-			guardianSets, err := GetGuardianSetsFromChain(ctx, gs.ethRpcUrl, gs.ethGovernanceAddress, uint32(gs.currentGuardianSetIndex+1))
+			guardianSets, err := GetGuardianSetsFromChain(ctx, gs.ethRpcUrl, gs.ethGovernanceAddress, uint32(gs.getCurrentGuardianSetIndex()+1))
 			if err != nil {
 				gs.logger.Error("failed to get guardian sets", zap.Error(err))
 				continue
@@ -102,20 +120,21 @@ func (gs *GuardianSets) updateGuardianSets(guardianSets []*common.GuardianSet) e
 	gs.lock.Lock()
 	defer gs.lock.Unlock()
 
-	maxGuardianSetIndex := guardianSets[len(guardianSets)-1].Index
-	if maxGuardianSetIndex <= uint32(gs.currentGuardianSetIndex) {
-		return nil
-	}
-	index := 0
-	for i, guardianSet := range guardianSets {
-		if guardianSet.Index == uint32(gs.currentGuardianSetIndex)+1 {
-			index = i
+	for _, guardianSet := range guardianSets {
+		// Only the direct successor of the newest known set can be appended: sets that are already
+		// known are skipped, and a batch that does not connect must not shift the list.
+		if guardianSet.Index != uint32(gs.currentGuardianSetIndex)+1 {
+			continue
+		}
+		// The contract answers with an empty set for an index that does not exist (yet); remembering
+		// it would shadow the real set once it is created.
+		if len(guardianSet.Keys) == 0 {
 			break
 		}
+		// Append first, then publish the new index: lookups index the list by it.
+		gs.guardianSetLists = append(gs.guardianSetLists, guardianSet)
+		gs.currentGuardianSetIndex = int(guardianSet.Index)
 	}
-
-	gs.currentGuardianSetIndex = int(maxGuardianSetIndex)
-	gs.guardianSetLists = append(gs.guardianSetLists, guardianSets[index:]...)
 
 	if len(gs.guardianSetLists) != gs.currentGuardianSetIndex+1 {
 		return fmt.Errorf("invalid guardian sets, currentGuardianSetIndex: %v, guardianSetSize: %v", gs.currentGuardianSetIndex, len(gs.guardianSetLists))
